@@ -87,8 +87,14 @@ func newWorld(rt *rapid.T, rec *evid.Rec, cfg WorldCfg) *World {
 	if cfg.TwoEDS {
 		other := cfg.Letters[rapid.IntRange(0, len(cfg.Letters)-1).Draw(rt, "firstLetter2")]
 		ns, name := "ns2", "foo"
-		if rapid.Bool().Draw(rt, "secondSameNamespace") {
+		switch rapid.IntRange(0, 3).Draw(rt, "secondEDS") {
+		case 1:
 			ns, name = "ns1", "bar"
+		case 2:
+			// a valid object name that is not a valid label value (longer than 63 characters)
+			ns, name = "ns1", "bar-"+strings.Repeat("x", 66)
+		case 3:
+			ns, name = "ns1", "foo-bar" // the first EDS's name is a prefix
 		}
 		w.addEDS(ns, name, other, gen.ConvergentStrategy(rt, cfg.Strategy))
 	}
